@@ -98,6 +98,23 @@ class Unit:
         return symex.run_function(self.fn, inputs, ctx, consts=consts, features=features, n_stmts=n_stmts)
 
 
+def isolated(unit_label, shape=None):
+    """Decorator for an obligation-group generator `f(prefix, ..)`: if the unit's annotated shape no longer fits the source (Undecided) or the
+    source left the evaluator's subset (Unsupported), the group is replaced by one LostUnit pseudo-obligation (undecided), shaped like the
+    group's normal return value, instead of aborting the whole check."""
+    from .smt import LostUnit
+    shape = shape or (lambda o: ([o], []))
+    def deco(fn):
+        def wrapper(prefix, *a, **k):
+            try:
+                return fn(prefix, *a, **k)
+            except (extract.Undecided, symex.Unsupported) as e:
+                return shape(LostUnit("%s.%s.unit_not_evaluated" % (prefix, unit_label), "%s: %s" % (type(e).__name__, e), unit_label))
+        wrapper.__name__ = fn.__name__; wrapper.__doc__ = fn.__doc__
+        return wrapper
+    return deco
+
+
 def has_havoc(terms):
     """Does a value depend on something the tolerant evaluator replaced by an unconstrained variable?"""
     return any(k.startswith("havoc_") for k in tm.free_vars([t for t in terms if isinstance(t, tm.T)]))
